@@ -116,6 +116,10 @@ def vxi11 : Iface :=
         .validate ['h', 'o', 's', 't'] (.badHost),
         .store ['_', 'h', 'o', 's', 't'] [['h', 'o', 's', 't']]] } }
 
+/-- `QMI_TransportDescriptorException` and its qmi base classes define no `__init__` / `__new__` / `__str__` / `__repr__`:
+constructing it from any message text cannot raise and keeps the text -/
+def descriptorExceptionPlain : Bool := true
+
 def env : Env :=
   { ifaces := [serial, udp, tcp, usbtmc, gpib, vxi11],
     localhostAddr := ['1', '2', '7', '.', '0', '.', '0', '.', '1'] }
